@@ -23,7 +23,38 @@ DATETIME_TYPES = {"pd.DatetimeIndex", "pd.PeriodIndex", "pd.Timestamp", "pd.Peri
 INTEGER_WORLD = {"Z", "L", "OZ", "F"}
 COQTY = {"Z": "Z", "B": "bool", "L": "list Z", "M": "list bool", "F": "fh", "OZ": "option Z",
          "OL": "option (list Z)", "OB": "option bool", "U": "unit", "IN": "input", "RF": "relflag",
-         "FI": "fhin"}
+         "FI": "fhin", "SQ": "seq"}
+
+# type tests that refine a constructor argument: unparsed test with {x} for the variable name ->
+# (type of x before, view function of Model.v, binder suffix, type of x inside the true branch)
+REFINING_TESTS = {
+    "type({x}) in VALID_INDEX_TYPES": ("IN", "as_index", "_ix", "L"),
+    "isinstance({x}, (int, np.integer))": ("IN", "as_int", "_int", "Z"),
+    "isinstance({x}, (list, np.ndarray))": ("IN", "as_seq", "_seq", "SQ"),
+    "isinstance({x}, bool)": ("RF", "as_bool", "_b", "B"),
+}
+# _check_values returns pd.Int64Index or pd.RangeIndex (pandas typing, modelled); both are members of
+# RELATIVE_TYPES and ABSOLUTE_TYPES (checked against the source by check_type_constants)
+STATIC_TRUE_TESTS = ("type({x}) in RELATIVE_TYPES", "type({x}) in ABSOLUTE_TYPES")
+MESSAGE_NODES = (ast.Tuple, ast.Constant, ast.JoinedStr, ast.FormattedValue, ast.Starred,
+                 ast.ListComp, ast.comprehension, ast.Name, ast.Attribute, ast.Load, ast.Store)
+
+
+def is_message_expr(node):
+    """Pure construction of an error message: strings, f-strings, tuples of them, type(x)."""
+    has_text = False
+    for n in ast.walk(node):
+        if isinstance(n, ast.Call):
+            if not (isinstance(n.func, ast.Name) and n.func.id == "type" and len(n.args) == 1
+                    and not n.keywords):
+                return False
+        elif not isinstance(n, MESSAGE_NODES):
+            return False
+        if isinstance(n, ast.JoinedStr) or (isinstance(n, ast.Constant) and isinstance(n.value, str)):
+            has_text = True
+        if isinstance(n, ast.Constant) and not isinstance(n.value, str):
+            return False
+    return has_text
 KEYWORDS = {"end", "at", "in", "as", "return", "using", "fix", "match", "with", "let", "fun", "if",
             "then", "else", "forall", "exists", "Type", "Prop", "Set", "where",
             # identifiers of Model.v / Lib that a Python local must not shadow
@@ -260,6 +291,29 @@ class Tr:
                         a.append(term)
                     return "(%s %s)" % (m["coq"], " ".join(a)), m["ret"], m["raises"]
                 return self.lift([recv] + argv, k)
+        if callee == "pd.Int64Index":
+            if len(e.args) != 1 or [(k.arg, ast.unparse(k.value)) for k in e.keywords] \
+                    != [("dtype", "np.int")]:
+                raise Unsupported("pd.Int64Index call shape: " + ast.unparse(e))
+            a0 = e.args[0]
+            if isinstance(a0, ast.List) and len(a0.elts) == 1:
+                v = self.ex(a0.elts[0], env)
+                self.need(v[1], "Z", e)
+                return self.lift([v], lambda a: ("[%s]" % a[0], "L", False))
+            v = self.ex(a0, env)
+            self.need(v[1], "SQ", e)
+            return self.lift([v], lambda a: ("(pd_int64index %s)" % a[0], "L", True))
+        if isinstance(f, ast.Attribute) and f.attr in ("nunique", "sort_values") \
+                and not e.args and not e.keywords:
+            v = self.ex(f.value, env)
+            if v[1] == "L":
+                if f.attr == "nunique":
+                    return self.lift([v], lambda a: ("(nunique %s)" % a[0], "Z", False))
+                return self.lift([v], lambda a: ("(isort %s)" % a[0], "L", False))
+        if callee == "_check_values" and len(e.args) == 1 and not e.keywords:
+            v = self.ex(e.args[0], env)
+            self.need(v[1], "IN", e)
+            return self.lift([v], lambda a: ("(gen_check_values %s)" % a[0], "L", True))
         if callee == "len" and len(e.args) == 1 and not e.keywords:
             v = self.ex(e.args[0], env)
             if v[1] == "F":
@@ -292,20 +346,25 @@ class Tr:
             b = self.ex(e.args[1], env)
             self.need(a[1], "L", e)
             self.need(b[1], "B", e)
-            return self.lift([a, b], lambda n: ("(fh_init (IIndex %s) (RBool %s))" % (n[0], n[1]),
+            return self.lift([a, b], lambda n: ("(gen_init (IIndex %s) (RBool %s))" % (n[0], n[1]),
                                                 "F", True))
         if callee == "ForecastingHorizon":
             argv = self.args(e, env, ["values", "is_relative"],
                              {"values": ("IOther", "IN", False), "is_relative": ("true", "B", False)})
             self.need(argv[0][1], "IN", e)
             self.need(argv[1][1], "B", e)
-            return self.lift(argv, lambda n: ("(fh_init %s (RBool %s))" % (n[0], n[1]), "F", True))
+            return self.lift(argv, lambda n: ("(gen_init %s (RBool %s))" % (n[0], n[1]), "F", True))
         raise Unsupported("call " + callee)
 
     # ---- statements --------------------------------------------------------------------------
     def finish(self, env):
         if self.ret == "U" and self.raises:
             return "(Ok tt)", "U", True
+        if self.cfg.get("init"):
+            v, r = env.get("@self._values"), env.get("@self._is_relative")
+            if v is None or r is None or v[1] != "L" or r[1] != "B":
+                raise Unsupported("__init__ does not set _values / _is_relative as expected")
+            return "(mkfh %s %s)" % (v[0], r[0]), "F", False
         raise Unsupported("function falls off its end")
 
     def out(self, v, e):
@@ -324,6 +383,24 @@ class Tr:
             return else_k(env)
         if isinstance(test, ast.UnaryOp) and isinstance(test.op, ast.Not):
             return self.cond(test.operand, env, else_k, then_k)
+        u = ast.unparse(test)
+        for x, (t, ty) in list(env.items()):
+            if "." in x or not x.isidentifier():
+                continue
+            for pat, (before, view, suffix, after) in REFINING_TESTS.items():
+                if u == pat.format(x=x):
+                    if ty != before:
+                        raise Unsupported("%s on a value of type %s" % (u, ty))
+                    b = cname(x) + suffix
+                    env2 = dict(env)
+                    env2[x] = (b, after)
+                    return self.join("(match %s %s with Some %s => %%s | None => %%s end)"
+                                     % (view, t, b), then_k(env2), else_k(env))
+            for pat in STATIC_TRUE_TESTS:
+                if u == pat.format(x=x):
+                    if ty != "L":
+                        raise Unsupported("%s on a value of type %s" % (u, ty))
+                    return self.join("(if true then %s else %s)", then_k(env), else_k(env))
         # `x is None` on an optional argument (no refinement: the value is used through oz_get)
         if isinstance(test, ast.Compare) and len(test.ops) == 1 \
                 and isinstance(test.ops[0], (ast.Is, ast.IsNot)) \
@@ -402,6 +479,20 @@ class Tr:
             bt = body[0] if body[2] else "(Ok %s)" % body[0]
             return ("(match (match %s with InFh f_ => Ok f_ | InRaw i_ => %s end) with Err => Err "
                     "| Ok %s =>\n  %s end)" % (t, built, cname(v), bt)), body[1], True
+        if isinstance(s, ast.Assign) and len(s.targets) == 1 and isinstance(s.targets[0], ast.Name) \
+                and is_message_expr(s.value):
+            env2 = dict(env)
+            env2[s.targets[0].id] = ("tt", "MSG")
+            return self.block(rest, env2)
+        if isinstance(s, ast.Assign) and len(s.targets) == 1 \
+                and isinstance(s.targets[0], ast.Attribute) and self.cfg.get("init") \
+                and ast.unparse(s.targets[0]) in ("self._values", "self._is_relative"):
+            t, ty, r = self.ex(s.value, env)
+            if r or not t.replace("_", "a").isalnum():
+                raise Unsupported("attribute assignment of a compound value: " + ast.unparse(s))
+            env2 = dict(env)
+            env2["@" + ast.unparse(s.targets[0])] = (t, ty)
+            return self.block(rest, env2)
         if isinstance(s, ast.Assign) and len(s.targets) == 1 and isinstance(s.targets[0], ast.Name):
             v = s.targets[0].id
             t, ty, r = self.ex(s.value, env)
@@ -467,6 +558,12 @@ CUTOFF = ("cutoff", "cutoff", "OZ")
 
 # order matters: Coq needs callees first
 FUNCS = [
+    dict(src="fh", path="_check_values", coq="gen_check_values",
+         params=[("values", "values", "IN")], ret="L", raises=True),
+    dict(src="fh", path="ForecastingHorizon.__init__", coq="gen_init", init=True,
+         params=[("self", None, None), ("values", "values", "IN"),
+                 ("is_relative", "is_relative", "RF")],
+         ret="F", raises=True, defaults={"values": None, "is_relative": True}),
     dict(src="fh", path="ForecastingHorizon.is_relative", coq="gen_is_relative", params=[SELF],
          ret="B", raises=False, decorators=["property"],
          env={"self._is_relative": ("(rel self)", "B")}),
@@ -570,7 +667,7 @@ def translate_function(mod, cfg, facts):
                     [ast.literal_eval(d) for d in a.defaults]))
     if dflt != cfg.get("defaults", {}):
         raise Unsupported("%s: defaults %s" % (cfg["path"], dflt))
-    env = {py: (cname(coq), ty) for py, coq, ty in cfg["params"]}
+    env = {py: (cname(coq), ty) for py, coq, ty in cfg["params"] if ty is not None}
     env.update(cfg.get("env", {}))
     body = list(fn.body)
     for imp in cfg.get("skip_imports", []):
@@ -584,7 +681,8 @@ def translate_function(mod, cfg, facts):
         raise Unsupported("%s: result type %s" % (cfg["path"], ty))
     if cfg["raises"] and not r:
         term = "(Ok %s)" % term
-    sig = " ".join("(%s : %s)" % (cname(coq), COQTY[t]) for _, coq, t in cfg["params"])
+    sig = " ".join("(%s : %s)" % (cname(coq), COQTY[t]) for _, coq, t in cfg["params"]
+                   if t is not None)
     rty = COQTY[cfg["ret"]]
     if cfg["raises"]:
         rty = "res (%s)" % rty if " " in rty else "res %s" % rty
